@@ -589,4 +589,10 @@ theorem stopwatch_counts_running_time_only (ops : List WatchOp) (w w' : Watch) (
         simpa [runningTime] using this
       · simp [hp] at h
 
+/-- non-vacuity: a legal sequence with time passing in both states — 5 running, 7 paused, 3 running — counts 8 -/
+example : (({} : Watch).run [.advance 5, .pause, .advance 7, .resume, .advance 3]) = some { active := 8, paused := false } := by decide
+example : runningTime false [.advance 5, .pause, .advance 7, .resume, .advance 3] = 8 := by decide
+/-- … and the illegal transitions are the panics of stopwatch.rs -/
+example : (({} : Watch).run [.pause, .pause]) = none ∧ (({} : Watch).run [.resume]) = none := by decide
+
 end NextestModel.C12
